@@ -26,6 +26,7 @@ from .common import (cfg_of, fkey, conds, has_cond, cond_texts, stmts_of, walk_b
                      returns_of, raises_of, raise_type, protected_by, stmt_of, kwarg)
 from .common import implies_absent, local_aliases
 from ..cfg import enclosing_tries, expand_conds
+from ..normalize import anchor_names
 from ..astutil import assigned_value, argn, names_stored, exc_supertypes, EXC_ALIASES
 
 STATIC = 'clastic.static'
@@ -84,9 +85,44 @@ def _srcs(fi, expr):
     return [expr]
 
 
-def _all_srcs(fi, expr, pred):
+def _internal_callee(fi, e):
+    """``e`` is (an element of) the result of calling a function of the analysed package that was not dissolved into
+    this function: its name, else None."""
+    while isinstance(e, ast.Subscript):
+        e = e.value
+    if not isinstance(e, ast.Call):
+        return None
+    f = e.func
+    repo = fi.mod.repo
+    try:
+        if isinstance(f, ast.Name) and f.id not in _locals_of(fi):
+            kind, m, obj = repo.resolve(fi.mod, f.id)
+            if kind == 'func' and m is not None and not m.external and f.id not in anchor_names():
+                return f.id      # (functions the rules name are judged by name; the rest would need following)
+        if isinstance(f, ast.Attribute) and isinstance(f.value, ast.Name) and f.value.id in ('self', 'cls') and fi.cls is not None:
+            meth = repo.find_method(fi.cls, f.attr)
+            if meth is not None and not meth.mod.external and f.attr not in anchor_names():
+                return norm(f)
+    except AnalysisError:
+        raise
+    except Exception:
+        return None
+    return None
+
+
+def _all_srcs(fi, expr, pred, known=()):
+    """Every source of ``expr`` satisfies ``pred``.  A source produced by a function of the package that the loader
+    did not dissolve (and that is not one of the ``known`` primitives) cannot be judged here: analysis error."""
     ss = _srcs(fi, expr) if expr is not None else []
-    return bool(ss) and all(isinstance(x, ast.expr) and pred(x) for x in ss)
+    ok = bool(ss)
+    for x in ss:
+        if isinstance(x, ast.expr) and pred(x):
+            continue
+        ok = False
+        callee = _internal_callee(fi, x) if isinstance(x, ast.expr) else None
+        if callee is not None and callee not in known:
+            raise AnalysisError('%s: value %s comes from %s(), which is not followed' % (fi.qualname, short(expr), callee))
+    return ok
 
 
 def _unbool(cs):
@@ -141,6 +177,27 @@ def _branch_test(cfg, nid, t, p, depth=0):
             break
         t = val
     return t, p
+
+
+def _edge_facts(cfg, nid, t, p, atom, depth=0):
+    """What is known on the edge where test ``t`` evaluated to polarity ``p``: the set of facts ``atom(test, pol)``
+    yields, propagated through ``not``, ``and`` / ``or`` (a false conjunction only guarantees what *each* conjunct being
+    false would guarantee; a false disjunction guarantees all of them), ``bool(..)`` and named tests."""
+    if depth > 6:
+        return frozenset()
+    while isinstance(t, ast.UnaryOp) and isinstance(t.op, ast.Not):
+        t, p = t.operand, not p
+    if isinstance(t, ast.BoolOp):
+        parts = [_edge_facts(cfg, nid, v, p, atom, depth + 1) for v in t.values]
+        all_known = (isinstance(t.op, ast.And) and p is True) or (isinstance(t.op, ast.Or) and p is False)
+        out = frozenset(parts[0])
+        for x in parts[1:]:
+            out = (out | x) if all_known else (out & x)
+        return out
+    t2, p2 = _branch_test(cfg, nid, t, p)
+    if t2 is not t:
+        return _edge_facts(cfg, nid, t2, p2, atom, depth + 1)
+    return frozenset(atom(t, p))
 
 
 # ---------------------------------------------------------------------------------------------- handlers
@@ -227,6 +284,43 @@ def _unreferenced_private(repo, fi):
     return True
 
 
+def _site_protected(repo, fi, c, depth=0):
+    """The call ``c`` in ``fi`` cannot let an OSError escape as a 500: it is under a handler raising a non-breaking 403,
+    or ``fi`` is a plain module-level function only ever *called* (never passed around) and every such call is."""
+    h = _protected_by(fi, c, 'OSError')
+    if h is not None and _nonbreaking_forbidden(h, fi):
+        return True
+    if h is not None or depth >= 3 or fi.cls is not None or '.' in fi.qualname:
+        return False
+    name = fi.qualname
+    n_calls = 0
+    for m in repo.all_internal_modules():
+        for n in ast.walk(m.tree):
+            if isinstance(n, ast.Attribute) and n.attr == name:
+                return False
+            if isinstance(n, ast.alias) and name in (n.name, n.asname):
+                return False
+            if isinstance(n, ast.Constant) and n.value == name:
+                return False
+            if isinstance(n, ast.Name) and n.id == name:
+                if m is not fi.mod:
+                    return False
+                par = m.parents.get(n)
+                if not (isinstance(par, ast.Call) and par.func is n):
+                    return False
+                fnode = m.enclosing_function(par)
+                caller = m.func_of_node(fnode) if fnode is not None else None
+                if caller is None or name in _locals_of(caller):
+                    return False
+                if caller.qualname == 'StaticFileRoute.__init__':
+                    n_calls += 1      # construction time, not a request
+                    continue
+                if not _site_protected(repo, caller, par, depth + 1):
+                    return False
+                n_calls += 1
+    return n_calls > 0
+
+
 def _is_abs_test(t, x):
     s = norm(t)
     return s in ("%s.startswith('/')" % x, '%s.startswith(os.sep)' % x, 'os.path.isabs(%s)' % x, 'isabs(%s)' % x,
@@ -239,18 +333,60 @@ def _is_pardir_test(t, x):
                  "%s.split(os.sep)[0] == os.pardir" % x, "%s.split('/')[0] == '..'" % x)
 
 
-def _nonbreaking_forbidden(handler):
+def _raised(fi, r):
+    """The expression a ``raise`` statement raises; ``exc = Forbidden(..); raise exc`` counts as raising that call when
+    the local has no other source."""
+    e = r.exc
+    if isinstance(e, ast.Name) and fi is not None and e.id in _locals_of(fi):
+        ss = _srcs(fi, e)
+        if len(ss) == 1 and isinstance(ss[0], ast.Call):
+            return ss[0]
+    return e
+
+
+def _rtype(fi, r):
+    e = _raised(fi, r)
+    if e is None:
+        return None
+    if isinstance(e, ast.Call):
+        e = e.func
+    return norm(e)
+
+
+def _is_nonbreaking_http(fi, r):
+    """``raise <HTTP error>(.., is_breaking=False)`` -> True / False; None when it does not raise an HTTP error call."""
+    e = _raised(fi, r)
+    if not (isinstance(e, ast.Call) and _rtype(fi, r) in HTTP_ERRS):
+        return None
+    v = kwarg(e, 'is_breaking')
+    if isinstance(v, ast.Name) and fi is not None and v.id not in _locals_of(fi):
+        return fi.mod.repo.try_fold(v, fi.mod) is False
+    return isinstance(v, ast.Constant) and v.value is False
+
+
+def _nonbreaking_forbidden(handler, fi=None):
     """handler body raises an HTTP error with is_breaking=False on every top-level path (simple shape)."""
     rz = [s for s in ast.walk(handler) if isinstance(s, ast.Raise)]
     if not rz:
         return False
     for r in rz:
-        if not (isinstance(r.exc, ast.Call) and raise_type(r) in HTTP_ERRS):
-            return False
-        v = kwarg(r.exc, 'is_breaking')
-        if not (isinstance(v, ast.Constant) and v.value is False):
+        if _is_nonbreaking_http(fi, r) is not True:
             return False
     return isinstance(handler.body[-1], ast.Raise)
+
+
+def _check_raises(rep, rule, st, fi, tail):
+    n = 0
+    for r in raises_of(fi):
+        nb = _is_nonbreaking_http(fi, r)
+        if nb is not None:
+            n += 1
+            rep.check(rule, fkey(fi, r) + '#' + ','.join(cond_texts(conds(fi, r)))[:80], nb,
+                      '%s is raised non-breaking' % _rtype(fi, r) if nb else
+                      '%s raised without is_breaking=False: %s' % (_rtype(fi, r), tail), st, r)
+        elif r.exc is not None:
+            rep.fail(rule, fkey(fi, r), 'serving function raises %s, which becomes a 500' % _rtype(fi, r), st, r)
+    return n
 
 
 def check_nonbreaking(rep, rule):
@@ -260,17 +396,7 @@ def check_nonbreaking(rep, rule):
     st = repo.mod(STATIC)
     n = 0
     for q in ('build_file_response', 'StaticApplication.get_file_response', 'StaticFileRoute.get_file_response'):
-        fi = st.func(q)
-        for r in raises_of(fi):
-            if isinstance(r.exc, ast.Call) and raise_type(r) in HTTP_ERRS:
-                n += 1
-                v = kwarg(r.exc, 'is_breaking')
-                ok = isinstance(v, ast.Constant) and v.value is False
-                rep.check(rule, fkey(fi, r) + '#' + ','.join(cond_texts(conds(fi, r)))[:80], ok,
-                          '%s is raised non-breaking' % raise_type(r) if ok else
-                          '%s raised without is_breaking=False: routes after this static application are never tried' % raise_type(r), st, r)
-            elif r.exc is not None:
-                rep.fail(rule, fkey(fi, r), 'serving function raises %s, which becomes a 500' % raise_type(r), st, r)
+        n += _check_raises(rep, rule, st, st.func(q), 'routes after this static application are never tried')
     return n
 
 
@@ -327,7 +453,6 @@ def _r14a(rep):
     a = ff.node.args
     dflt = dict(zip([x.arg for x in a.args][len(a.args) - len(a.defaults):], a.defaults))
     lim_default = dflt.get('limit_root')
-    branches = [(nid,) + _branch_test(cfg, nid, t_, p_) for nid, t_, p_ in cfg.branches()]
     for j in joins:
         x = j.args[1]
         key = fkey(ff, j)
@@ -335,42 +460,85 @@ def _r14a(rep):
             rep.fail('R14.a', key, 'joined value %s is not a simple local (cannot show it is the sanitised one)' % short(x), st, j)
             continue
         X = x.id
-        asg = [s for s in stmts_of(ff.node) if isinstance(s, (ast.Assign, ast.AugAssign, ast.For)) and X in
-               [n.id for n in ast.walk(s.targets[0] if isinstance(s, ast.Assign) else s.target) if isinstance(n, ast.Name)]]
-        ok = len(asg) == 1 and isinstance(asg[0], ast.Assign) and isinstance(asg[0].value, ast.Call) \
-            and call_tail(asg[0].value) == 'normpath' and asg[0].value.args and norm(asg[0].value.args[0]) == params[1] \
-            and X not in params
+
+        def bindings(name):
+            return [s for s in stmts_of(ff.node) if isinstance(s, (ast.Assign, ast.AugAssign, ast.For, ast.AnnAssign)) and name in
+                    [n.id for t in (s.targets if isinstance(s, ast.Assign) else [s.target]) for n in ast.walk(t) if isinstance(n, ast.Name)]]
+        # the names that stand for the one normalised value: each bound exactly once, to os.path.normpath(<path>) or to
+        # another such name (``normalized = normpath(path); rel_path = normalized``)
+        names = set()
+        locs = _locals_of(ff) - set(params)
+        grew = True
+        while grew:
+            grew = False
+            for n in sorted(locs - names):
+                b = bindings(n)
+                if len(b) != 1 or not (isinstance(b[0], ast.Assign) and len(b[0].targets) == 1 and isinstance(b[0].targets[0], ast.Name)):
+                    continue
+                v = b[0].value
+                if (isinstance(v, ast.Call) and call_tail(v) == 'normpath' and len(v.args) == 1 and not v.keywords
+                        and norm(v.args[0]) == params[1] and not bindings(params[1])) or (isinstance(v, ast.Name) and v.id in names):
+                    names.add(n)
+                    grew = True
+        ok = X in names
         rep.check('R14.a', key + '::source', ok,
                   '%s is assigned once, from os.path.normpath(%s)' % (X, params[1]) if ok else
                   'joined value %s is not the single result of os.path.normpath(%s) (raw or re-assigned path reaches the join)'
                   % (X, params[1]), st, j)
+        if not ok:
+            names = {X}
         jn = cfg.nodes_of(stmt_of(st, j))
-        lim_f = []
-        abs_f, par_f = [], []
-        for nid, t_, p_ in branches:
-            if norm(t_) == 'limit_root' and p_ is False:
-                lim_f.append(nid)
-            if _is_abs_test(t_, X) and p_ is False:
-                abs_f.append(nid)
-            if _is_pardir_test(t_, X) and p_ is False:
-                par_f.append(nid)
-        for label, nodes in (('absolute-path refusal', abs_f), ('parent-directory refusal', par_f)):
-            ok = bool(nodes) and cfg.must_pass(set(nodes) | set(lim_f), cfg.entry, jn)
+
+        seen_tests = set()
+
+        def atom(t, p):
+            if p is False and norm(t) == 'limit_root':
+                return ('abs', 'par')
+            if any(_is_abs_test(t, n) for n in names):
+                seen_tests.add('abs')
+                return ('abs',) if p is False else ()
+            if any(_is_pardir_test(t, n) for n in names):
+                seen_tests.add('par')
+                return ('par',) if p is False else ()
+            return ()
+        facts = [(nid, _edge_facts(cfg, nid, t_, p_, atom)) for nid, t_, p_ in cfg.branches()]
+        for label, tag in (('absolute-path refusal', 'abs'), ('parent-directory refusal', 'par')):
+            nodes = [nid for nid, f in facts if tag in f]
+            tested = tag in seen_tests
+            if not tested:
+                # no such test in find_file itself: was the normalised path handed to a function we do not see into?
+                for c in walk_body(ff.node):
+                    if isinstance(c, ast.Call) and _internal_callee(ff, c) and \
+                            any(isinstance(a_, ast.Name) and a_.id in names for a_ in list(c.args) + [k.value for k in c.keywords]):
+                        raise AnalysisError('find_file: %s not found in find_file; %s is passed to %s(), which is not followed'
+                                            % (label, X, _internal_callee(ff, c)))
+            ok = tested and cfg.must_pass(set(nodes), cfg.entry, jn)
             rep.check('R14.a', key + '::' + label, ok,
                       'every path to the join passes the false branch of the %s on %s' % (label, X) if ok else
                       'the join is reachable without the %s on the normalised path %s (path traversal: a request path can '
                       'escape the search directory)' % (label, X), st, j)
     # true branches raise ValueError
     for r in raises_of(ff):
-        rep.check('R14.a', fkey(ff, r), raise_type(r) == 'ValueError', 'refusal raises ValueError (mapped to 403 by the caller)'
-                  if raise_type(r) == 'ValueError' else 'refusal raises %s, which the caller does not map to 403' % raise_type(r), st, r)
+        rep.check('R14.a', fkey(ff, r), _rtype(ff, r) == 'ValueError', 'refusal raises ValueError (mapped to 403 by the caller)'
+                  if _rtype(ff, r) == 'ValueError' else 'refusal raises %s, which the caller does not map to 403' % _rtype(ff, r), st, r)
     # only regular files are "found": a directory (or other entry) must not shadow a file of a later search path,
     # and must never be handed to build_file_response (whose 304 branch runs before its own isfile test)
     frets = [r for r in returns_of(ff) if not (r.value is None or (isinstance(r.value, ast.Constant) and r.value.value is None))]
     ok = bool(frets)
+
+    def is_isfile_of(t, what):
+        return isinstance(t, ast.Call) and call_tail(t) == 'isfile' and len(t.args) == 1 and norm(t.args[0]) == norm(what)
+
+    def first_regular(v):
+        """``next((<p> for .. in .. if isfile(<p>)), None)``: the first candidate that is a regular file, else None"""
+        if not (isinstance(v, ast.Call) and isinstance(v.func, ast.Name) and v.func.id == 'next' and len(v.args) == 2 and not v.keywords
+                and isinstance(v.args[0], ast.GeneratorExp) and isinstance(v.args[1], ast.Constant) and v.args[1].value is None):
+            return False
+        g = v.args[0]
+        return any(is_isfile_of(c, g.elt) for gen in g.generators for i in gen.ifs for c, p_ in expand_conds([(i, True)]) if p_ is True)
     for r in frets:
         cs = _conds(ff, r)
-        ok = ok and has_cond(cs, lambda t: isinstance(t, ast.Call) and call_tail(t) == 'isfile' and t.args and norm(t.args[0]) == norm(r.value), True)
+        ok = ok and (has_cond(cs, lambda t: is_isfile_of(t, r.value), True) or first_regular(r.value))
     rep.check('R14.a', fkey(ff, 'only regular files'), ok, 'a path is returned only under isfile(<that path>)' if ok else
               'find_file can return a path that is not a regular file (exists()/isdir/no test): directories shadow files of later '
               'search paths and reach the 304 branch', st, frets[0] if frets else ff.node)
@@ -394,24 +562,15 @@ def _r14b(rep):
     serving = [st.func('build_file_response'), st.func('StaticApplication.get_file_response'),
                st.func('StaticFileRoute.get_file_response')]
     for fi in serving:
-        for r in raises_of(fi):
-            if isinstance(r.exc, ast.Call) and raise_type(r) in HTTP_ERRS:
-                v = kwarg(r.exc, 'is_breaking')
-                ok = isinstance(v, ast.Constant) and v.value is False
-                rep.check('R14.b', fkey(fi, r) + '#' + ','.join(cond_texts(conds(fi, r)))[:80], ok,
-                          '%s is raised non-breaking' % raise_type(r) if ok else
-                          '%s raised without is_breaking=False: later (overlapping) static applications are never tried' % raise_type(r),
-                          st, r)
-            elif r.exc is not None and not (isinstance(r.exc, ast.Call) and raise_type(r) in HTTP_ERRS):
-                rep.fail('R14.b', fkey(fi, r), 'serving function raises %s, which becomes a 500' % raise_type(r), st, r)
+        _check_raises(rep, 'R14.b', st, fi, 'later (overlapping) static applications are never tried')
     gfr, ffc, res_var = _find_file_call(st)
     for exc in ('ValueError', 'OSError'):
         h = _protected_by(gfr, ffc, exc)
-        ok = h is not None and _nonbreaking_forbidden(h) and any(raise_type(r) == 'Forbidden' for r in ast.walk(h) if isinstance(r, ast.Raise))
+        ok = h is not None and _nonbreaking_forbidden(h, gfr) and any(_rtype(gfr, r) == 'Forbidden' for r in ast.walk(h) if isinstance(r, ast.Raise))
         rep.check('R14.b', fkey(gfr, 'find_file under except %s' % exc), ok,
                   '%s from find_file becomes a non-breaking Forbidden' % exc if ok else
                   '%s from find_file is not turned into a non-breaking 403' % exc, st, ffc)
-    nf = [r for r in raises_of(gfr) if res_var is not None and raise_type(r) == 'NotFound' and implies_absent(_conds(gfr, r), res_var)]
+    nf = [r for r in raises_of(gfr) if res_var is not None and _rtype(gfr, r) == 'NotFound' and implies_absent(_conds(gfr, r), res_var)]
     rep.check('R14.b', fkey(gfr, 'None => NotFound'), bool(nf), 'a missing file raises NotFound' if nf else
               'a None result of find_file is not turned into NotFound', st, gfr.node)
     # the bfr call only happens with a found path: not reachable when result is None
@@ -436,7 +595,7 @@ def _r14c(rep):
             continue
         n_prims += 1
         h = _protected_by(bfr, c, 'OSError')
-        ok = h is not None and _nonbreaking_forbidden(h)
+        ok = h is not None and _nonbreaking_forbidden(h, bfr)
         rep.check('R14.c', fkey(bfr, c), ok,
                   '%s(...) is under "except %s" raising a non-breaking 403' % (tail, norm(h.type)) if ok else
                   'filesystem call %s is outside any OSError handler that raises a non-breaking Forbidden: an I/O error '
@@ -449,7 +608,7 @@ def _r14c(rep):
         for c in walk_body(fi.node):
             if isinstance(c, ast.Call) and call_tail(c) in FS_PRIMS and call_tail(c) not in ('read', 'seek', 'tell'):
                 h = _protected_by(fi, c, 'OSError')
-                ok = h is not None and _nonbreaking_forbidden(h)
+                ok = h is not None and _nonbreaking_forbidden(h, fi)
                 rep.check('R14.c', fkey(fi, c), ok, 'protected' if ok else
                           'filesystem call %s in %s is unprotected' % (short(c), fi.qualname), st, c)
     # helpers themselves do not swallow: (nothing to check) ; helper bodies only use primitives
@@ -470,8 +629,7 @@ def _r14c(rep):
             if _unreferenced_private(repo, fi):
                 rep.ok('R14.c', fkey(fi, c), 'private function without any remaining reference in the package (not on the serving path)', m, c)
                 continue
-            h = _protected_by(fi, c, 'OSError')
-            ok = h is not None and _nonbreaking_forbidden(h)
+            ok = _site_protected(repo, fi, c)
             rep.check('R14.c', fkey(fi, c), ok, 'call site of helper %s is protected' % hname if ok else
                       'helper %s (performs file I/O) is called unprotected in %s' % (hname, fi.qualname), m, c)
     rep.floor('R14.c', 4)
@@ -497,19 +655,22 @@ def _r14d(rep):
     # ``<file mtime> <= cached_modify_time`` (either way round); the name holding the file's mtime is free
     mt_names = []
 
-    def not_newer(t):
+    def not_newer(t, pol=True):
+        # mtime <= cmt, cmt >= mtime hold; or mtime > cmt, cmt < mtime do not hold (datetimes are totally ordered)
         if not (isinstance(t, ast.Compare) and len(t.ops) == 1):
             return False
         l, r = t.left, t.comparators[0]
-        if isinstance(t.ops[0], ast.GtE):
+        op = type(t.ops[0])
+        if op in (ast.GtE, ast.Lt):
             l, r = r, l
-        elif not isinstance(t.ops[0], ast.LtE):
+            op = {ast.GtE: ast.LtE, ast.Lt: ast.Gt}[op]
+        if op is not (ast.LtE if pol else ast.Gt):
             return False
         if isinstance(l, ast.Name) and norm(r) == 'cached_modify_time' and l.id != 'cached_modify_time':
             mt_names.append(l)
             return True
         return False
-    c2 = has_cond(cs, not_newer, True)
+    c2 = has_cond(cs, not_newer, True) or has_cond(cs, lambda t: not_newer(t, False), False)
     rep.check('R14.d', fkey(bfr, '304 condition'), c1 and c2,
               '304 only when caching is on, the client sent a date, and mtime <= that date' if c1 and c2 else
               '304 is not conditioned on (cache_timeout and cached_modify_time) and mtime <= cached_modify_time: %s' % '; '.join(cond_texts(cs)),
